@@ -58,13 +58,19 @@ type Out struct {
 	DevOrder    []int              `json:"dev_order,omitempty"`
 	Grants      []zzsimrt.Grant    `json:"grants,omitempty"`
 	NGrants     int                `json:"n_grants"`
+	Foreign     int64              `json:"foreign_hook_calls,omitempty"`
 }
 
 // mux is the source installed for the whole run: a Read is served by the
 // device of the task that holds the token.
 type mux struct{ devs []*dev.Dev }
 
-func (m *mux) Read(p []byte) (int, error) { return m.devs[zzsimrt.Cur()].Read(p) }
+func (m *mux) Read(p []byte) (int, error) {
+	if !zzsimrt.IsTask() { // a goroutine of the library's own: served by an unscripted device of its own
+		return len(p), nil
+	}
+	return m.devs[zzsimrt.Cur()].Read(p)
+}
 
 func die(code int, f string, a ...interface{}) {
 	fmt.Fprintf(os.Stderr, f+"\n", a...)
@@ -150,6 +156,7 @@ func main() {
 	out.Stats, out.Deadlock, out.StepCap, out.Protocol = res.Stats, res.Deadlock, res.StepCap, res.Protocol
 	out.SwitchSites, out.SiteHits, out.DevOrder = res.SwitchSites, res.SiteHits, res.DevOrder
 	out.NGrants = len(s.Grants)
+	out.Foreign = res.Foreign
 	if p.Grants {
 		out.Grants = s.Grants
 	}
